@@ -17,6 +17,7 @@
 (*   T.fd[i]        1 iff v[i] contains a file descriptor                   *)
 (*   T.std[k].ok    1 iff the k-th  T -> Value -> T  conversion of a std    *)
 (*                  type returned the original                              *)
+(*   T.unbuildable  well-formed values whose construction failed            *)
 (*                                                                         *)
 (* Every law is given as the SET OF ITS COUNTEREXAMPLES in the table (index *)
 (* tuples); the law holds on the table iff the set is empty.  The property  *)
@@ -64,10 +65,13 @@ CopyBad(T, field) ==
 (* --- converting a value back to the Rust type it was built from ----------- *)
 StdBad(T) == {<<k>> : k \in {x \in 1..Len(T.std) : T.std[x].ok # 1}}
 
+(* --- every well-formed value of the catalogue can be built at all ---------- *)
+BuildBad(T) == {<<k>> : k \in 1..Len(T.unbuildable)}
+
 OrderLawNames == {"eq-reflexive", "eq-symmetric", "eq-transitive", "cmp-total", "cmp-antisymmetric",
                   "cmp-transitive", "cmp-eq-consistent", "hash-eq-consistent"}
 OtherLawNames == {"signature-encoded", "clone-preserves", "to-owned-preserves", "owned-value-roundtrip",
-                  "into-owned-preserves", "std-roundtrip"}
+                  "into-owned-preserves", "std-roundtrip", "constructible"}
 
 Bad(T, law) ==
   CASE law = "eq-reflexive"         -> EqReflBad(T)
@@ -84,6 +88,7 @@ Bad(T, law) ==
     [] law = "owned-value-roundtrip" -> CopyBad(T, T.ovrt)
     [] law = "into-owned-preserves" -> CopyBad(T, T.into)
     [] law = "std-roundtrip"        -> StdBad(T)
+    [] law = "constructible"        -> BuildBad(T)
 
 OrderLawsHold(T) == \A law \in OrderLawNames : Bad(T, law) = {}
 Holds(T) == \A law \in OrderLawNames \cup OtherLawNames : Bad(T, law) = {}
